@@ -488,3 +488,106 @@ Theorem C03_allcol_first_positive_column_refuted :
   /\ allcol_rotated_first (blk_cmis exact_filter wit_block) [k] LAnd = Some [c_src].
 Proof. exact allcol_first_positive_refuted. Qed.
 Print Assumptions C03_allcol_first_positive_column_refuted.
+
+(* ----- the query TIME RANGE as an accelerator (TimePrune.v): segments / blocks outside the range are skipped -----
+   metautils.FilterBlocksByTime is the first step of the micro-index check of rotated (RunCmiCheck) and open
+   (DoCMICheckForUnrotated) segments: a loop over the block summaries of the segment in the order the blocks were
+   WRITTEN.  Event time is independent of ingest order (late / back-filled / out-of-order events), so that list is
+   in no particular time order: block time ranges may descend, overlap, nest.  The per-block and per-record tests
+   are the regenerated Go functions: *)
+From Coq Require Import Sorting.Sorted.
+From SigM Require Import TimePrune.
+From SigP Require Import TimePruneProofs.
+Open Scope N_scope.
+
+Theorem C03_code_time_tests_are_model : forall tr lo hi t,
+  gen_CheckRangeOverLap (Z.of_N (tr_end tr)) (Z.of_N (tr_start tr)) (Z.of_N lo) (Z.of_N hi) = overlap tr lo hi /\
+  gen_CheckInRange (Z.of_N (tr_end tr)) (Z.of_N (tr_start tr)) (Z.of_N t) = ts_in_range tr t.
+Proof. exact gen_time_tests_are_model. Qed.
+Print Assumptions C03_code_time_tests_are_model.
+
+(* the overlap test never rejects a block range holding a timestamp of the query range (no premise on either
+   range); for proper ranges it is exactly "the two intervals share a point" *)
+Theorem C03_time_overlap_sound_and_exact : forall tr lo hi,
+  (forall t, lo <= t -> t <= hi -> ts_in_range tr t = true -> overlap tr lo hi = true) /\
+  (lo <= hi -> tr_start tr <= tr_end tr ->
+   (overlap tr lo hi = true <-> exists t, lo <= t /\ t <= hi /\ ts_in_range tr t = true)).
+Proof. exact overlap_sound_and_exact. Qed.
+Print Assumptions C03_time_overlap_sound_and_exact.
+(* without the guard (inverted query range) the test keeps a block that shares no point with the range: harmless,
+   the accelerator only skips less *)
+Theorem C03_time_overlap_exact_inverted_range_refuted :
+  overlap (7, 3) 0 10 = true /\ ~ (exists t, 0 <= t /\ t <= 10 /\ ts_in_range (7, 3) t = true).
+Proof. exact overlap_exact_needs_proper_range. Qed.
+Print Assumptions C03_time_overlap_exact_inverted_range_refuted.
+
+(* FilterBlocksByTime returns block j exactly when the tracker allows j and its range passes the overlap test — for
+   ANY list of summaries (no sortedness), any tracker, any range; ascending and without repetition; in particular a
+   block holding a record inside the query range is never dropped, wherever it sits in the list *)
+Theorem C03_time_filter_exact : forall t tr bs,
+  (forall j, In j (filter_blocks_by_time t tr bs) <->
+     exists b, nth_error bs j = Some b /\ should_process t j = true /\ overlap tr (fst b) (snd b) = true) /\
+  StronglySorted lt (filter_blocks_by_time t tr bs) /\
+  (forall j b ts, nth_error bs j = Some b -> should_process t j = true ->
+     fst b <= ts -> ts <= snd b -> ts_in_range tr ts = true -> In j (filter_blocks_by_time t tr bs)).
+Proof. exact time_filter_exact. Qed.
+Print Assumptions C03_time_filter_exact.
+(* the blocks kept are a filter over the block list, hence permutation invariance: the same blocks written in
+   another order -> the same blocks kept *)
+Theorem C03_time_filter_permutation_invariant : forall tr s1 s2,
+  pick_blocks s1 (filter_blocks_by_time None tr (map bsum_of s1)) = filter (blk_overlaps tr) s1 /\
+  (Permutation s1 s2 ->
+   Permutation (pick_blocks s1 (filter_blocks_by_time None tr (map bsum_of s1)))
+               (pick_blocks s2 (filter_blocks_by_time None tr (map bsum_of s2)))).
+Proof. exact time_filter_permutation_invariant. Qed.
+Print Assumptions C03_time_filter_permutation_invariant.
+
+(* end to end (segment filter + block filter + record test + the block scheduler of Sched.v): a time-bounded search
+   reaches EOF and returns exactly the matching records inside the range, newest first — for every layout whose
+   summaries cover their records (blocks in any order) and every GOMAXPROCS *)
+Theorem C03_time_bounded_answer_is_spec : forall procs tr L, layout_ok L = true ->
+  snd (run RecentFirst procs (time_queue filter_blocks_by_time tr L)) = true /\
+  Permutation (fst (run RecentFirst procs (time_queue filter_blocks_by_time tr L))) (time_spec tr L) /\
+  sorted_desc (fst (run RecentFirst procs (time_queue filter_blocks_by_time tr L))).
+Proof. exact time_fetch_is_spec. Qed.
+Print Assumptions C03_time_bounded_answer_is_spec.
+(* two layouts of the same matching records (pairwise different timestamps), any two GOMAXPROCS: the very same hits;
+   and with no premise on the layouts: ANY two splits of ANY record set into segments and blocks, in any arrival
+   order (summaries as the writer computes them) *)
+Theorem C03_time_bounded_layout_invariance : forall p1 p2 tr,
+  (forall L1 L2, layout_ok L1 = true -> layout_ok L2 = true -> Permutation (lrecs L1) (lrecs L2) ->
+     NoDup (map rts (lrecs L1)) ->
+     time_fetch_answer p1 tr L1 = time_fetch_answer p2 tr L2 /\ snd (time_fetch_answer p1 tr L1) = true) /\
+  (forall S1 S2 : list (list (list rec)),
+     Permutation (concat (map (@concat rec) S1)) (concat (map (@concat rec) S2)) ->
+     NoDup (map rts (concat (map (@concat rec) S1))) ->
+     time_fetch_answer p1 tr (layout_of_recs S1) = time_fetch_answer p2 tr (layout_of_recs S2) /\
+     snd (time_fetch_answer p1 tr (layout_of_recs S1)) = true).
+Proof. exact time_bounded_layout_invariance. Qed.
+Print Assumptions C03_time_bounded_layout_invariance.
+
+(* an early exit of the block loop at the first block starting after the end of the range ("blocks are appended in
+   time order") is the real loop exactly under that assumption … *)
+Theorem C03_time_filter_early_exit_guarded : forall t tr bs, tr_start tr <= tr_end tr ->
+  StronglySorted (fun a b : bsum => fst a <= fst b) bs -> Forall (fun b : bsum => fst b <= snd b) bs ->
+  filter_blocks_by_time_break t tr bs = filter_blocks_by_time t tr bs.
+Proof. exact early_exit_equal_on_ascending_blocks. Qed.
+Print Assumptions C03_time_filter_early_exit_guarded.
+(* … and without it drops a late block: two blocks written newest first, range = the late one *)
+Theorem C03_time_filter_early_exit_refuted :
+  filter_blocks_by_time None (5, 25) [(30, 40); (10, 20)] = [1%nat] /\
+  filter_blocks_by_time_break None (5, 25) [(30, 40); (10, 20)] = [] /\
+  filter_blocks_by_time None (5, 25) [(10, 20); (30, 40)] = [0%nat] /\
+  filter_blocks_by_time_break None (5, 25) [(10, 20); (30, 40)] = [0%nat].
+Proof. exact early_exit_drops_late_block. Qed.
+Print Assumptions C03_time_filter_early_exit_refuted.
+(* end to end: the late events are lost in one arrival order and found in the other *)
+Theorem C03_time_bounded_early_exit_loses_late_events_refuted :
+  layout_ok late_block_layout = true /\ layout_ok inorder_layout = true /\
+  Permutation (lrecs late_block_layout) (lrecs inorder_layout) /\
+  time_fetch_answer 16 (5, 25) late_block_layout = ([2; 1], true) /\
+  time_fetch_answer 16 (5, 25) inorder_layout = ([2; 1], true) /\
+  time_fetch_answer_break 16 (5, 25) inorder_layout = ([2; 1], true) /\
+  time_fetch_answer_break 16 (5, 25) late_block_layout = ([], true).
+Proof. exact early_exit_loses_late_events. Qed.
+Print Assumptions C03_time_bounded_early_exit_loses_late_events_refuted.
